@@ -91,9 +91,18 @@ pub struct Tagged<F> {
     fut: Pin<Box<F>>,
 }
 
+pub static WATCH_UID: std::sync::atomic::AtomicU64 = std::sync::atomic::AtomicU64::new(0);
+pub static WATCH_JOBS: std::sync::atomic::AtomicU64 = std::sync::atomic::AtomicU64::new(0);
+pub static WATCH_SIMMS: std::sync::atomic::AtomicU64 = std::sync::atomic::AtomicU64::new(0);
+pub static WATCH_SEQ: std::sync::atomic::AtomicU64 = std::sync::atomic::AtomicU64::new(0);
+pub static WATCH_POLLS: std::sync::atomic::AtomicU64 = std::sync::atomic::AtomicU64::new(0);
+
 impl<F: Future> Future for Tagged<F> {
     type Output = F::Output;
     fn poll(mut self: Pin<&mut Self>, cx: &mut Context<'_>) -> Poll<Self::Output> {
+        WATCH_UID.store(self.tag.map(|t| ((t.client as u64) << 32) | t.uid as u64).unwrap_or(0), std::sync::atomic::Ordering::Relaxed);
+        WATCH_POLLS.fetch_add(1, std::sync::atomic::Ordering::Relaxed);
+        storm_breaker(&*self.world);
         let prev = self.world.inner.borrow().cur_tag;
         if self.first {
             self.first = false;
@@ -104,6 +113,70 @@ impl<F: Future> Future for Tagged<F> {
         let r = self.fut.as_mut().poll(cx);
         self.world.resume_tag(prev);
         r
+    }
+}
+
+thread_local! {
+    pub static RUN_STARTED: std::cell::Cell<Option<std::time::Instant>> = std::cell::Cell::new(None);
+    static STORM: std::cell::Cell<(u64, u64)> = std::cell::Cell::new((0, 0));
+    /// (world event seq at the last forced advance that saw progress, forced advances without progress)
+    static STORM_STALL: std::cell::Cell<(u64, u64)> = std::cell::Cell::new((0, 0));
+}
+
+/// Simulated time only advances when the runtime is idle. Some primitives busy-wait (async-lock's
+/// RwLock readers pass a "no writer" notification round while a writer holds the lock), which is
+/// harmless under a real clock but would freeze the simulated one for ever while the lock holder
+/// waits for a simulated I/O latency. After 20 000 consecutive polls of client operations without
+/// any progress of the simulated clock the clock is pushed forward by 1 ms (deterministic).
+pub fn storm_breaker(world: &World) {
+    // wall-clock guard for a single run (harness protection, never a verdict): the run is cut
+    // short as if the process had been killed, and nothing observed afterwards counts
+    let polls = WATCH_POLLS.load(std::sync::atomic::Ordering::Relaxed);
+    if polls % 8192 == 0 {
+        let started = RUN_STARTED.with(|r| r.get());
+        if let Some(t0) = started {
+            if t0.elapsed().as_secs() >= 40 && !world.is_dead() {
+                world.probe("run_aborted_wall_clock_guard");
+                world.inner.borrow_mut().dead = true;
+                world.kill_flag.set(true);
+                world.kill_notify.notify_one();
+            }
+        }
+    }
+    let now = world.sim_ms();
+    WATCH_SIMMS.store(now, std::sync::atomic::Ordering::Relaxed);
+    let (last_ms, n) = STORM.with(|s| s.get());
+    if now != last_ms {
+        STORM.with(|s| s.set((now, 0)));
+        return;
+    }
+    if n + 1 >= 20_000 {
+        STORM.with(|s| s.set((now, 0)));
+        if world.inner.borrow().session_start.is_some() {
+            let waker = futures::task::noop_waker();
+            let mut cx = Context::from_waker(&waker);
+            let mut f = Box::pin(tokio::time::advance(Duration::from_millis(1)));
+            let _ = f.as_mut().poll(&mut cx);
+            world.probe("forced_clock_advance_busy_wait");
+            // no I/O event and no completed operation for 200 forced advances (4 million polls):
+            // the busy-waiting tasks wait for something that will never happen
+            let progress = {
+                let w = world.inner.borrow();
+                w.seq + w.reads + w.next_job
+            };
+            let (last, stalled) = STORM_STALL.with(|s| s.get());
+            if progress != last {
+                STORM_STALL.with(|s| s.set((progress, 0)));
+            } else if stalled + 1 >= 200 {
+                STORM_STALL.with(|s| s.set((progress, 0)));
+                world.hung_flag.set(true);
+                world.kill_notify.notify_one();
+            } else {
+                STORM_STALL.with(|s| s.set((last, stalled + 1)));
+            }
+        }
+    } else {
+        STORM.with(|s| s.set((last_ms, n + 1)));
     }
 }
 
@@ -384,6 +457,7 @@ where
     for<'a> K: Key<'a> + AsRef<K> + 'static,
 {
     install_panic_hook();
+    RUN_STARTED.with(|r| r.set(Some(std::time::Instant::now())));
     PANICS.with(|p| p.borrow_mut().clear());
     CAPTURE_PANICS.with(|c| c.set(true));
     let dir = scratch_dir(opts);
@@ -450,6 +524,9 @@ where
         world.end_session();
         total_sim_ms = world.sim_ms();
         crate::session::after_session(&ctx, si, outcome);
+        if plan.profile.starts_with("tools") && si == 0 && !ctx.aborted.get() {
+            crate::tools_phase::run::<K>(&ctx);
+        }
         if ctx.violations.borrow().len() > 20 || ctx.aborted.get() {
             break;
         }
